@@ -138,8 +138,8 @@ func builtinJSONStringify(call FunctionCall) Value {
 					continue
 				}
 				seen[name] = true
+				propertyList[length] = name // Append: skipped elements leave no gap
 				length++
-				propertyList[index] = name
 			}
 			ctx.propertyList = propertyList[0:length]
 		} else if replacer.class == classFunctionName {
